@@ -10,3 +10,13 @@ def except_spec(src: Seq[Cell], ex: Seq[Int], n: Int) -> Seq[Cell]:
     if (n - 1) in ex:
         return except_spec(src, ex, n - 1)
     return except_spec(src, ex, n - 1) + [src[n - 1]]
+
+
+@spec
+def except_spec_str(src: Seq[Str], ex: Seq[Int], n: Int) -> Seq[Str]:
+    # except_spec for a list of names (the header)
+    if n <= 0:
+        return []
+    if (n - 1) in ex:
+        return except_spec_str(src, ex, n - 1)
+    return except_spec_str(src, ex, n - 1) + [src[n - 1]]
